@@ -21,6 +21,17 @@ FAM = "TxnModel"
 def run(ctx, prefixes):
     thorough = ctx.tier == "thorough"
     vlib.build_harness(ctx)
+    # design level: the TwoPL mechanism spec (no-wait strict 2PL + index maintenance timing, as coded) refines the
+    # contract (ReadsRight = C04, Acyclic = C05, Agree, LocksFree) for workloads without key-changing updates; with
+    # them the as-coded model exhibits the open finding KF-C04-kupd-hides-row (MC_coded.cfg) and the model of the
+    # suggested repair (old index entry kept until commit, MC_fixed.cfg) is safe again.
+    vlib.model_check(ctx, "TwoPL", "TwoPL", "MC_coded_nokupd.cfg", workers=8, timeout=1800)
+    vlib.model_check(ctx, "TwoPL", "TwoPL", "MC_fixed.cfg", workers=8, timeout=1800)
+    if thorough:
+        vlib.model_check(ctx, "TwoPL", "TwoPL", "MC_coded_nokupd3.cfg", workers=16, timeout=3400)
+    kf = vlib.tlc(ctx, "TwoPL", "TwoPL", "MC_coded.cfg", workers=4, timeout=600, name="TwoPL-as-coded-with-kupd")
+    if kf["rc"] == 0:
+        raise Inconclusive("the as-coded TwoPL model no longer exhibits KF-C04-kupd-hides-row: model and known_findings.json disagree")
     tr = os.path.join(ctx.work, "txn.ndjson")
     out = vlib.vdrive(ctx, ["txn", "sched", tr, 6000 if thorough else 260, 600 if thorough else 40], timeout=3400, ok_codes=(0, 3))
     res = vlib.validate(ctx, FAM, "TxnModelTrace", "Trace.cfg", tr, name="val-txn", timeout=3400, jvm=("-Xmx8g",))
@@ -42,6 +53,7 @@ def run(ctx, prefixes):
     return dict(states=ctx.states, transitions=ctx.transitions, traces_validated_against_impl=ctx.traces,
                 samples=ctx.samples, exhaustive=False, schedules=c["Final"], statements=dict(kinds), outcomes=dict(outcomes),
                 commits=c["Commit"], aborts=c["Abort"], events_validated=ctx.events,
+                design_model="TwoPL.tla: 2 transactions x 2 rows x <= 2 statements (thorough 3): point reads through the index, sequential reads, inserts, deletes (mark now, remove at commit), in-place and key-changing updates, commit, abort with LIFO undo; invariants ReadsRight, Acyclic, Agree (heap = index = committed store at quiescence), LocksFree",
                 rule="per pair of programs all interleavings at statement granularity are executed (exhaustive per pair); pairs are seeded")
 
 
